@@ -278,4 +278,31 @@ def ctaOutcomeUnlocked (m : List Bool) : List Nat × Nat × Nat :=
 def clampLast (lastH lastX stableH stableX : Nat) : Nat × Nat :=
   if lastH ≤ stableH then (stableH, stableX) else (lastH, lastX)
 
+/-! ### (7) the last-signed record as a monotone-max register (`SetLastSig`)
+
+  `Confirmer.SetLastSig(block)`: `if block.Height() > lastSig.Height { lastSig = block }`.  Writers: the chain-lock
+  holder (`saveNewBlock`, own high block) and the batch-confirm goroutine (lower, stable blocks).  Heights only. -/
+
+structure MS where
+  cell : Nat := 0
+  /-- (ghost) the heights of the completed `SetLastSig` calls, most recent first -/
+  done : List Nat := []
+  loc  : Nat → Nat := fun _ => 0
+
+/-- `lastSig.Height` is read -/
+def mxRead (i : Nat) (s : MS) : MS := { s with loc := fun j => if j = i then s.cell else s.loc j }
+
+/-- the check against the height READ and the update -/
+def mxWrite (i x : Nat) (s : MS) : MS :=
+  { s with cell := if x > s.loc i then x else s.cell, done := x :: s.done }
+
+/-- `SetLastSig(x)` with check and update in ONE section of lastSigLock (the code) -/
+def mxSteps (i x : Nat) : List (MS → MS) := [mxRead i, mxWrite i x]
+def mxSec (i x : Nat) : Sec MS := ⟨true, mxSteps i x⟩
+
+/-- the split variant: the read in one section of the lock, the update in ANOTHER one (both guarded) -/
+def mxSplit (i x : Nat) : List (Sec MS) := [⟨true, [mxRead i]⟩, ⟨true, [mxWrite i x]⟩]
+
+def maxList (l : List Nat) : Nat := l.foldl Nat.max 0
+
 end LemoModel.Signer
